@@ -132,6 +132,60 @@ func costChain(n int) string {
 	return b.String()
 }
 
+// mixed pairs: one response key selected k times with a sub-selection that spreads the next fragment and
+// b times bare (invalid: the bare composite field needs a sub-selection - the merge pass runs all the
+// same, and a pair of a field with and a field without sub-selection recurses into the merged set)
+func chainMixed(k, b int) func(n int) string {
+	return func(n int) string {
+		var sb strings.Builder
+		sb.WriteString("{...F0}")
+		for i := 0; i < n; i++ {
+			fmt.Fprintf(&sb, " fragment F%d on T{", i)
+			for j := 0; j < k; j++ {
+				fmt.Fprintf(&sb, "a{...F%d} ", i+1)
+			}
+			sb.WriteString(rep("a ", b))
+			sb.WriteString("}")
+		}
+		fmt.Fprintf(&sb, " fragment F%d on T{i}", n)
+		return sb.String()
+	}
+}
+
+// the same through inline fragments: the occurrences sit in different selection sets
+func chainMixedInline(n int) string {
+	var sb strings.Builder
+	sb.WriteString("{...F0}")
+	for i := 0; i < n; i++ {
+		fmt.Fprintf(&sb, " fragment F%d on T{... on T{a{...F%d}} ...{a{...F%d} a} a}", i, i+1, i+1)
+	}
+	fmt.Fprintf(&sb, " fragment F%d on T{i}", n)
+	return sb.String()
+}
+
+// a leaf and composite fields under one response key: x:a{...} x:a{...} x:i
+func chainLeafVsComposite(n int) string {
+	var sb strings.Builder
+	sb.WriteString("{...F0}")
+	for i := 0; i < n; i++ {
+		fmt.Fprintf(&sb, " fragment F%d on T{x:a{...F%d} x:a{...F%d} x:i}", i, i+1, i+1)
+	}
+	fmt.Fprintf(&sb, " fragment F%d on T{i}", n)
+	return sb.String()
+}
+
+// no fragments: the bare occurrence next to nested ones, a{ <rec> } a{i} a
+func treeMixed(n int) string {
+	var rec func(k int) string
+	rec = func(k int) string {
+		if k == 0 {
+			return "i"
+		}
+		return "a{" + rec(k-1) + "} a{i} a"
+	}
+	return "{" + rec(n) + "}"
+}
+
 // the family of Cplx/CostWalkProofs.v (cost_walk_exponential): both spreads in one selection set
 func costChainFlat(n int) string {
 	var b strings.Builder
@@ -268,6 +322,13 @@ func families() []family {
 		{"tree3", "merge", tree3, append(seq(1, 12, 1), 20, 40, 80, 160), append(seq(1, 40, 1), 80, 160, 240)},
 		{"chain-alias", "merge", chainAlias, append(seq(1, 10, 1), 20, 40), append(seq(1, 30, 1), 60, 120)},
 		{"chain-wrapped", "merge", chainWrapped, append(seq(1, 10, 1), 20, 40, 80), append(seq(1, 30, 1), 60, 120, 240)},
+		{"chain-mixed-2+1", "merge", chainMixed(2, 1), append(seq(1, 12, 1), 16, 24, 48, 96), append(seq(1, 40, 1), 48, 96, 200)},
+		{"chain-mixed-1+1", "merge", chainMixed(1, 1), append(seq(1, 12, 1), 24, 48, 96), append(seq(1, 40, 1), 96, 200)},
+		{"chain-mixed-2+2", "merge", chainMixed(2, 2), append(seq(1, 12, 1), 24, 48), append(seq(1, 40, 1), 96)},
+		{"chain-mixed-3+1", "merge", chainMixed(3, 1), append(seq(1, 12, 1), 24, 48), append(seq(1, 40, 1), 96)},
+		{"chain-mixed-inline", "merge", chainMixedInline, append(seq(1, 12, 1), 24, 48), append(seq(1, 40, 1), 96)},
+		{"chain-leaf-vs-composite", "merge", chainLeafVsComposite, append(seq(1, 12, 1), 24, 48), append(seq(1, 40, 1), 96)},
+		{"tree-mixed", "merge", treeMixed, append(seq(1, 12, 1), 24, 48, 96), append(seq(1, 40, 1), 96, 200)},
 		{"cyclic", "merge", cyclic, []int{1, 2, 3, 4, 5, 8, 16, 32}, append(seq(1, 20, 1), 40, 80, 160)},
 		{"repeated-spreads", "merge", repeatedSpreads, []int{1, 2, 3, 5, 10, 30, 100, 300}, []int{1, 2, 3, 5, 10, 30, 100, 300, 1000}},
 		{"same-spread-twice", "frag", sameSpreadTwice, []int{1, 2, 3, 10, 100, 1000}, []int{1, 2, 3, 10, 100, 1000, 5000}},
